@@ -48,3 +48,13 @@ Definition check_hist (c : hist_case) : N :=
             then 0 else 1 in
   let c4 := if monotone [] (hc_payloads c) && forallb (fun kv => Nat.leb (snd kv) 1) (hc_upstream_evals c) then 0 else 4 in
   c1 + c4.
+
+(* Processor histories (several process() + execute calls over trees sharing materialization nodes across engines):
+   judged without a model.  bit 4: a payload changed or disappeared, or a leaf that is reachable only through a
+   materialization was read more than once over the whole history. *)
+Record phist_case := PHCase {
+  ph_payloads : list (list (positive * nat));     (* after each event: materialization -> stamp of its payload object *)
+  ph_evals : list (positive * nat) }.             (* leaf -> number of iterations started over the history *)
+
+Definition check_phist (c : phist_case) : N :=
+  if monotone [] (ph_payloads c) && forallb (fun kv => Nat.leb (snd kv) 1) (ph_evals c) then 0 else 4.
